@@ -30,7 +30,11 @@ func normText(s string) string {
 		}
 		return "w"
 	})
-	return spaceRe.ReplaceAllString(s, " ")
+	s = spaceRe.ReplaceAllString(s, " ")
+	for strings.Contains(s, "\\\n\\\n") { // runs of backslash-newline continuations count once
+		s = strings.ReplaceAll(s, "\\\n\\\n", "\\\n")
+	}
+	return s
 }
 
 func window(s string, pos, before, after int) string {
@@ -53,7 +57,7 @@ func sigDiffText(a, b string) string {
 	for i < len(a) && i < len(b) && a[i] == b[i] {
 		i++
 	}
-	return fmt.Sprintf("%q vs %q", normText(window(a, i, 0, 3)), normText(window(b, i, 0, 3)))
+	return fmt.Sprintf("%q vs %q", normText(window(a, i, 0, 2)), normText(window(b, i, 0, 2)))
 }
 
 var posRe = regexp.MustCompile(`^(\d+):(\d+): `)
@@ -183,7 +187,7 @@ func sigComments(src string, before, after []string) string {
 				}
 			}
 			if strings.Contains(line, "<<") {
-				ctx += " +heredoc"
+				ctx = "+heredoc" // the statement kind does not matter here
 			}
 			if strings.Contains(line, "$(") || strings.Contains(line, "<(") || strings.Contains(line, "`") {
 				ctx += " +subst"
